@@ -12,6 +12,10 @@ for d in sorted(glob.glob("/verif/seeded/C*-*")):
     cmd = ["/venv/bin/python", "/verif/tools/verify_seeded.py", d]
     if name in EXTRA:
         cmd += ["--props", EXTRA[name]]
+    if os.environ.get("VERIFY_SKIP_TESTS"):
+        # (the baseline run was part of the verification when the change arrived; a re-verification of the checks
+        # against an unchanged patch can skip it)
+        cmd += ["--skip-tests"]
     proc = subprocess.run(cmd, capture_output=True, text=True)
     try:
         res = json.loads(proc.stdout[proc.stdout.index("{"):])
